@@ -389,6 +389,31 @@ class Gen:
         if c.chance(0.5):
             ops = self.serialise_same_rule_query(ops)
             self.sc["knob_no_same_rule_overlap"] = True
+        if c.chance(self.cfg.get("reentrant_p", 0.15)):
+            # swarm knob: re-entrant pre-emption - at the k-th user-code event inside a step, other tasks are stepped
+            # before the event returns (a property or predicate that itself runs a query)
+            self.sc["knob_reentrant"] = True
+            started = []
+            next_tid = 1 + max([op[1] for op in ops if op[0] == "start"] + [-1])
+            an_qs = [i for i, q in enumerate(self.sc["queries"]) if q["q"] != "the"]
+            for op in ops:
+                if op[0] == "start":
+                    started.append(op[1])
+                elif op[0] == "step" and c.chance(0.5) and an_qs:
+                    plans = []
+                    for k in sorted(c.sample(range(1, 8), c.int(1, 2))):
+                        nested = []
+                        for _ in range(c.int(1, 3)):
+                            others = [t for t in started if t != op[1]]
+                            if others and c.chance(0.75):
+                                nested.append([c.pick(["step", "step", "drain"]), c.pick(others)])
+                            elif next_tid < 8:
+                                nested.append(["start", next_tid, c.pick(an_qs)])
+                                nested.append(["step", next_tid])
+                                started.append(next_tid)
+                                next_tid += 1
+                        plans.append([k, nested])
+                    op.append(plans)
         self.sc["ops"] = ops
         self.sc["property"] = "C03"
         self.sc["machine"] = "eval_sim"
